@@ -71,8 +71,8 @@ HDRS = ["User-Agent", "Referer", "Cookie", "Accept-Language", "X-Foo"]
 REGEX = {
     "U": ["^/a", "\\.php$", "^/a/.*\\.php$", "/b", "^/[ab]/", "x+", "^/$", "^/a$", "php$", "^/b",
           "^/a/?$", "\\.php", "^/[^a]", "/a/b"],
-    "H": ["^h1", "^h[12]$", "\\.com$", "^h1(no", ":8080$", "^h.?$", "h2"],
-    "I": ["^10\\.", "^192\\.168\\.", "\\.3$", "^2001:db8:", "^[0-9.]+$", ":"],
+    "H": ["^h1", "^h[12]$", "\\.com$", "^h1(no", ":80+$", "^h.?$", "h2"],
+    "I": ["^10\\.", "^192\\.168\\.", "\\.[23]$", "^2001:db8:.*", "^[0-9.]+$", ":"],
     "Q": ["^a=", "b=2$", "a=.&", "z$", "^$"],
     "C": ["^https?$", "s$"],
     "M": ["^(no", "^P", "^[GH]", "T$"],
@@ -181,9 +181,13 @@ class Cond:
 
 def cidr_ref(net, peer):
     """reference CIDR semantics (python ipaddress): IPv4 and IPv4-mapped IPv6 are the same host"""
-    n = ipaddress.ip_network(net.strip("[]") if "/" not in net else net, strict=False)
     ver, pk, _ = peer
+    if not pk:
+        return False            # no peer address known yet
     ip = ipaddress.ip_address(pk)
+    if "/" not in net:          # a single address: exact comparison
+        return ip == ipaddress.ip_address(net.strip("[]"))
+    n = ipaddress.ip_network(net, strict=False)
     if n.version == ip.version:
         return ip in n
     if n.version == 4:
@@ -343,7 +347,7 @@ def rand_cond(rng, comps, used):
         if comp == "I":
             op = rng.choice(["==", "==", "!=", "=~", "!~"])
         elif comp == "S":
-            op = rng.choice(["==", "==", "!=", "=~"])
+            op = rng.choice(["==", "==", "!="])
         else:
             op = rng.choice(["==", "!=", "=~", "!~", "=^", "=$", "==", "=~"])
         if op in ("=~", "!~"):
